@@ -61,9 +61,9 @@ CHECKS = {
   "Every input position of every operation (incl. each index of the points slice for n=1..3) is made zero-valued in five different ways with all other inputs valid -> must panic; receiver-only zero values must not panic; all (len scalars, len points) in {0..3}^2 panic iff different. The operation table is cross-checked against reflection.",
   "recover() observes panics; the operation table lists today's exported methods (new ones are reported as uncovered)", "3 C15"),
  "C18": (MC, "sched",
-  "stateless model checking of the implementation: depth-first exploration of all thread schedules up to a preemption bound under a hand-written controlled scheduler, with vector-clock happens-before race detection on every explored schedule; sources instrumented at check time and injected with go build -overlay",
-  "Five closed harnesses (2-3 threads, cold start restored from a generated snapshot of all package-level variables) are run under every schedule with at most 2 (quick) / 3-4 (thorough) preemptions: simultaneous first use of either or both lazily built tables, cold and warm paths interleaved, shared read-only arguments. sync.Once is replaced by a shim following the standard library's structure whose every step is a scheduling point; mentions of mutable package-level variables (directly or through local aliases, classified by an interprocedural may-write analysis recomputed from the tree) are scheduling points and race-checked. On every schedule: results equal the sequential ones, no race, no deadlock, each table written exactly as often as sequentially, final package state equal. A free-running -race pass in cold processes is a supporting (sampling) extra.",
-  "sequential consistency + happens-before approximates the Go memory model; accesses through pointers that escape the alias analysis are covered by the value oracle and the sampled -race pass only; 2-3 threads", "3 C18"),
+  "stateless model checking of the implementation: depth-first exploration of thread schedules under a hand-written controlled scheduler - all schedules up to a preemption bound for ten closed harnesses, and ALL interleavings (no bound, pruning on complete state keys) for the table-construction harnesses - with vector-clock happens-before race detection on every explored schedule; sources instrumented at check time and injected with go build -overlay",
+  "Ten closed harnesses (2-4 threads, cold start restored from a generated snapshot of all package-level variables) are run under every schedule with at most 2 (quick) / 3-4 (thorough) preemptions, and the table-construction harnesses under every interleaving whatsoever (state-key pruning: scheduler state, vector clocks, full package memory, per-thread observation chains): simultaneous first use of either or both lazily built tables, cold and warm paths interleaved, shared read-only arguments. sync.Once is replaced by a shim following the standard library's structure whose every step is a scheduling point; mentions of mutable package-level variables (directly or through local aliases, classified by an interprocedural may-write analysis recomputed from the tree) are scheduling points and race-checked. On every schedule: results equal the sequential ones, no race, no deadlock, no pooled object held by two threads, each table written and each one-time initialisation function run exactly as often as sequentially, shared arguments untouched. A sequential enumeration checks that read-only methods never write their receiver. A free-running -race pass in cold processes is a supporting (sampling) extra.",
+  "sequential consistency + happens-before approximates the Go memory model; scheduling granularity = synchronisation operations and accesses to package-level variables (directly or through analysed aliases); heap objects shared by other routes are covered by the value oracle, the pool/ownership faults and the sampled -race pass only; 2-4 threads", "3 C18"),
  "C19": (MC, "opseq(replay)",
   "stateless exhaustive exploration of all call/scribble/operation sequences up to a depth bound, each replayed from fresh values in isolated processes; invariants (memory disjointness, unchanged sources and earlier results, constant probe battery) evaluated after every step",
   "All sequences to depth 3 (quick) / 4 (thorough) over 20 events: 10 constructor/accessor calls, 6 scribbles over previously returned values (exported setters, zeroing, raw bytes up to cap), 4 heavy operations. After every step: sources bit-identical, earlier results unchanged, new results equal the model and occupy fresh memory, and a 70-call probe battery on fixed arguments (receivers with different histories included) is byte-identical. Sharded over 16 processes so that package state is never shared between explorers.",
